@@ -324,11 +324,12 @@ class Ctx:
             "wall_s": round(time.time() - self.t0, 2),
             "violations": len(reported),
         }
-        os.makedirs(os.path.join(VERIF, "evidence"), exist_ok=True)
-        tmp = os.path.join(VERIF, "evidence", ".%s.tmp" % self.pid)
+        evdir = os.environ.get("VERIF_EVIDENCE_DIR") or os.path.join(VERIF, "evidence")
+        os.makedirs(evdir, exist_ok=True)
+        tmp = os.path.join(evdir, ".%s.tmp" % self.pid)
         with open(tmp, "w") as f:
             json.dump(ev, f, indent=1, default=str)
-        os.replace(tmp, os.path.join(VERIF, "evidence", "%s.json" % self.pid))
+        os.replace(tmp, os.path.join(evdir, "%s.json" % self.pid))
         shutil.rmtree(self.scratch, ignore_errors=True)
         for s in self.spaces:
             print("space %-28s evaluations=%-9s transitions=%-10s viol=%s%s %ss" % (
